@@ -855,6 +855,62 @@ func (e *h2bEnv) someEdge(b *ssa.BasicBlock, m func(h2bRel) bool) bool {
 				return true
 			}
 		}
+		if h2bSomeWay(g.Cond, g.Pol, m, 0) {
+			return true
+		}
+	}
+	return false
+}
+
+// h2bSomeWay: is there a way for cond to take the truth value pol on which a
+// relation accepted by m holds? This is the existential reading needed for
+// "one of the tests that lead into the rejecting block is X": with
+// `if a || b || c { reject }` every disjunct has its own edge into the block,
+// but in value context (`bad := a || b || c`, a tagless switch case) go/ssa
+// merges them into one boolean phi; each incoming edge of the phi that can
+// carry pol is then one way in, established by the guards on that edge and by
+// the value flowing in.
+func h2bSomeWay(cond ssa.Value, pol bool, m func(h2bRel) bool, depth int) bool {
+	if depth > 5 {
+		return false
+	}
+	for {
+		u, ok := cond.(*ssa.UnOp)
+		if !ok || u.Op != token.NOT {
+			break
+		}
+		cond, pol = u.X, !pol
+	}
+	if m(h2bRelOfCond(cond, pol)) {
+		return true
+	}
+	phi, ok := cond.(*ssa.Phi)
+	if !ok {
+		return false
+	}
+	for i, ed := range phi.Edges {
+		k, isK := h2bBool(ed)
+		if isK && k != pol {
+			continue
+		}
+		if !isK && h2bSomeWay(ed, pol, m, depth+1) {
+			return true
+		}
+		pred := phi.Block().Preds[i]
+		var gs []core.Guard
+		gs = append(gs, core.GuardsOnEdge(pred, phi.Block())...)
+		// guards of the chain of short-circuit blocks that leads to this edge
+		for _, g := range core.GuardsAt(pred) {
+			if g.If != nil && g.If.Block().Parent() == phi.Parent() && phi.Block().Dominates(g.If.Block()) {
+				continue
+			}
+			gs = append(gs, g)
+		}
+		for _, g := range gs {
+			if m(h2bRelOfCond(g.Cond, g.Pol)) || h2bSomeWay(g.Cond, g.Pol, m, depth+1) {
+				return true
+			}
+		}
 	}
 	return false
 }
